@@ -5,7 +5,15 @@ signed char sc = -128; unsigned char uc = 255; short sh = -32768; unsigned short
 int i0 = -2147483647 - 1, i1 = 2147483647; unsigned u0 = 0, u1 = 4294967295u;
 long l0 = -9223372036854775807L - 1, l1 = 9223372036854775807L; unsigned long ul1 = 18446744073709551615ul;
 long long ll = -5; unsigned long long ull = 7; _Bool b1 = 1, b0 = 0; char c = 'a';
+/* constant folding of 64-bit operands whose top bit is set, in every place the compiler evaluates itself */
+int cf0 = 18446744073709551615ul > 1ul, cf1 = 0x8000000000000000ul < 1ul, cf2 = 0xfffffffffffffffful >= 0x7ffffffffffffffful, cf3 = 9223372036854775808ull <= 5ull;
+int cf4 = -1ll < 1ul, cf5 = (1ul - 2ll) / 2 > 0, cf6 = (1 ? -1ll : 0ul) > 0, cf7 = -8l >> 1, cf8 = -1ll >> 63, cf9 = 0x8000000000000000ul >> 63;
+long cf10 = (-2ll >> 1) == -1, cf11 = 0xffffffffffffffffull / 2 > 0x7ffffffffffffff0ull, cf12 = 0xffffffffffffffffull % 10, cf13 = (long)(0x8000000000000000ul / 0x10) ;
+char cfbuf[18446744073709551615ul > 1ul ? 16 : 2]; char cfbuf2[-1ll < 1ul ? 3 : 5]; char cfbuf3[(-2l >> 1) == -1 ? 7 : 9];
+enum { CFE0 = 0xfffffffffffffff0ul > 16ul ? 10 : 20, CFE1 = (-8l >> 1) == -4 ? 30 : 40 };
+static int cfpick(int x) { switch (x) { case (0xffffffffffffffffull > 2ull) + 4: return 111; case (0x8000000000000000ull < 2ull) + 7: return 222; } return 0x8000000000000001ul > 1ul ? x + 1000 : x + 2000; }
 int main(void) {
+	P(cf0); P(cf1); P(cf2); P(cf3); P(cf4); P(cf5); P(cf6); P(cf7); P(cf8); P(cf9); P(cf10); P(cf11); P(cf12); P(cf13); P(sizeof cfbuf); P(sizeof cfbuf2); P(sizeof cfbuf3); P(CFE0); P(CFE1); P(cfpick(5)); P(cfpick(7)); P(cfpick(1));
 	P(sc + uc); P(sc * sh); PU((unsigned)us * us / 3u); PU(us << 15); P(sh >> 3); P(sc >> 1); PU(uc >> 1);
 	P(i1 + i0 / 2); P(i0 / 2); P(i0 % 7); P(i1 % -7); P(-7 / 2); P(-7 % 2); P(7 / -2); PU(u1 / 3); PU(u1 % 10);
 	P(i0 < u0); P(i0 < l0); P(-1 < u0); P(-1L < u1); P(-1 < 0u); PU(-1 + u0); P(l0 / -3); P(l0 % 1000); P(l1 / l0);
